@@ -178,6 +178,10 @@ def run(R, tier, seed, driver_ok):
                 p = 0.0 if param is None else param
                 lines.append(f"calib {strategy} {n} {bits(d)} {' '.join(map(str, yv))} {f2b(p)} {f2b(thr_eff)}")
                 meta.append((best, got, ok, case))
+                if strategy == 'f_beta':
+                    # implementation-layer model of the precision_recall_curve route (C16_code_fbeta_optimal)
+                    rlines.append(f"calib_fbeta_code {n} {bits(d)} {' '.join(map(str, yv))} {f2b(param)}")
+                    rmeta.append((thr, case))
                 if strategy in ('max_tpr', 'max_tnr'):
                     # implementation-layer model of the roc_curve route (C16_code_max_tpr_optimal / C16_code_max_tnr_optimal):
                     # the stored threshold must be the model's (−inf when the model stores the reject-all position)
